@@ -225,3 +225,50 @@ package ip
 //@   requires trieOK() && cidrValid(cidr) && (n == nil || cidrSameFam(n.cidr, cidr))
 //@   ensures res == nodeCoversSpec(n, cidr)
 //@   assigns nothing
+
+//@ -- intersects(n, q): some node inside q: q is a prefix of n's CIDR, or n's CIDR is a prefix of q and the child
+//@ -- on q's side intersects
+//@ spec func nodeIntersectsSpec(n *CIDRNode, q CIDR) bool
+//@ axiom nodeIntersects_def: forall n *CIDRNode, q CIDR :: nodeIntersectsSpec(n, q) == (n != nil && (cidrCovers(q, n.cidr) || (cidrCovers(n.cidr, q) && nodeIntersectsSpec(n.children[cidrBitAt(q, uint(cidrPfx(n.cidr)) + 1)], q))))
+//@ func (*CIDRNode).intersects
+//@   property C36
+//@   option safety off
+//@   uses nodeIntersects_def
+//@   requires trieOK() && cidrValid(cidr) && (n == nil || cidrSameFam(n.cidr, cidr))
+//@   ensures res == nodeIntersectsSpec(n, cidr)
+//@   assigns nothing
+
+//@ -- getNode(n, q, incl): walk towards q while q's address lies in the node's CIDR; the node whose CIDR equals q
+//@ -- is the answer if it holds data (or intermediates are wanted)
+//@ spec func nodeGetSpec(n *CIDRNode, q CIDR, incl bool) *CIDRNode
+//@ axiom nodeGet_def: forall n *CIDRNode, q CIDR, incl bool :: nodeGetSpec(n, q, incl) ==
+//@      (n == nil || !cidrAddrIn(n.cidr, q) ? nil : (q == n.cidr ? ((incl || n.data != nil) ? n : nil) : nodeGetSpec(n.children[cidrBitAt(q, uint(cidrPfx(n.cidr)) + 1)], q, incl)))
+//@ func (*CIDRNode).getNode
+//@   property C36
+//@   option safety off
+//@   uses nodeGet_def
+//@   requires trieOK() && cidrValid(cidr) && (n == nil || cidrSameFam(n.cidr, cidr))
+//@   ensures res == nodeGetSpec(n, cidr, includeIntermediates)
+//@   assigns nothing
+//@ func (*CIDRNode).get
+//@   property C36
+//@   option safety off
+//@   requires trieOK() && cidrValid(cidr) && (n == nil || cidrSameFam(n.cidr, cidr))
+//@   ensures nodeGetSpec(n, cidr, false) == nil ==> res == nil
+//@   ensures nodeGetSpec(n, cidr, false) != nil ==> res == nodeGetSpec(n, cidr, false).data
+//@   assigns nothing
+
+//@ -- LPM(q): walking down towards q while q's address lies in the node's CIDR, the last data-bearing node seen
+//@ -- (stopping at the node whose CIDR equals q); its CIDR and data are returned, or the zero CIDR and nil
+//@ spec func nodeLPMSpec(n *CIDRNode, q CIDR, best *CIDRNode) *CIDRNode
+//@ axiom nodeLPM_def: forall n *CIDRNode, q CIDR, best *CIDRNode :: nodeLPMSpec(n, q, best) ==
+//@      (n == nil || !cidrAddrIn(n.cidr, q) ? best : (q == n.cidr ? (n.data != nil ? n : best) : nodeLPMSpec(n.children[cidrBitAt(q, uint(cidrPfx(n.cidr)) + 1)], q, (n.data != nil ? n : best))))
+//@ func (*CIDRTrie).LPM
+//@   property C36
+//@   option safety off
+//@   uses nodeLPM_def
+//@   requires t != nil && trieOK() && cidrValid(cidr) && (t.root == nil || cidrSameFam(t.root.cidr, cidr))
+//@   ensures nodeLPMSpec(t.root, cidr, nil) == nil ==> res1 == nil
+//@   ensures nodeLPMSpec(t.root, cidr, nil) != nil ==> res0 == nodeLPMSpec(t.root, cidr, nil).cidr && res1 == nodeLPMSpec(t.root, cidr, nil).data
+//@   assigns nothing
+//@   loop 1 invariant nodeLPMSpec(n, cidr, match) == nodeLPMSpec(t.root, cidr, nil) && (n == nil || cidrSameFam(n.cidr, cidr)) && (match == nil || match.data != nil)
